@@ -70,13 +70,16 @@ Fixpoint pack_all (f : wstate -> list Z -> outcome wstate) (st : wstate) (l : li
 Record nts_in := { ni_id : list Z; ni_cookies : list (list Z); ni_placeholders : list (list Z) }.
 
 (* EncodePacket(b, pkt): the slice b points to must have length 48; the buffer becomes 1024 bytes: the header followed
-   by zeros (fresh buffer, tail = []) or by whatever the caller's backing array held (tail);
+   by zeros (cap(b) < 1024: fresh buffer) or by what the caller's backing array held behind
+   the header (tail = the bytes between len and cap, at least 976 of them);
    fields are packed from position 48; the result is buf[:pos].  Every error of a pack
    method is turned into a panic. *)
 Definition nts_encode (hdr tail : list Z) (p : nts_in) (nonce ct : list Z) : outcome (list Z) :=
   if negb (length hdr =? ntp_hdr_len)%nat then Panic
   else
-    let buf0 := hdr ++ (match tail with [] => repeat 0 (max_packet_len - ntp_hdr_len) | _ => tail end) in
+    let buf0 := hdr ++ (if (length tail <? max_packet_len - ntp_hdr_len)%nat
+                        then repeat 0 (max_packet_len - ntp_hdr_len)
+                        else firstn (max_packet_len - ntp_hdr_len) tail) in
     let r := obind (uid_pack (buf0, ntp_hdr_len) (ni_id p)) (fun st1 =>
              obind (pack_all (field_pack ext_cookie) st1 (ni_cookies p)) (fun st2 =>
              obind (pack_all (field_pack ext_cookie_placeholder) st2 (ni_placeholders p)) (fun st3 =>
